@@ -572,12 +572,18 @@ func c13Vehicle(withTrip bool) Harness {
 			v.Trip = genTrip(c, "t.", tripBases["mixed"])
 		}
 		f32 := func(label string, base int) *float32 {
-			switch pick(c, label, base, 3) {
+			switch pick(c, label, base, 5) {
 			case 1:
 				x := float32(0)
 				return &x
 			case 2:
 				x := float32(-73.5)
+				return &x
+			case 3: // as a bearing the same direction as 0, as data another value
+				x := float32(360)
+				return &x
+			case 4: // -73.5 + 360
+				x := float32(286.5)
 				return &x
 			}
 			return nil
